@@ -1,6 +1,7 @@
 /- asm-format glue: `find_overlapping_fragments` with scaffold names vs `overlappingPairs` -/
 import AgpTpf.Model.AsmFormat
 import AgpTpf.Properties.C19
+import AgpTpf.Proofs.C05MapM
 namespace AgpTpf.AsmFormat
 open AgpTpf AgpTpf.C19
 
@@ -86,5 +87,37 @@ theorem findOverlapping_nil_iff (a : Assembly) :
     refine h i j hij x.1 y.1 ?_ ?_
     · rw [← fragmentsWithScaffold_fst]; simp [hx]
     · rw [← fragmentsWithScaffold_fst]; simp [hy]
+
+end AgpTpf.AsmFormat
+
+/-! ### the STDERR rendering cannot raise for fragments that went through `Fragment.__init__` -/
+namespace AgpTpf.AsmFormat
+open AgpTpf
+
+theorem fragmentStr_ok (f : Fragment) (h : f.strand = 0 ∨ f.strand = 1 ∨ f.strand = -1) : ∃ t, fragmentStr f = .ok t := by
+  rcases h with h | h | h <;> (simp only [fragmentStr, fragmentStrandStr, h]; exact ⟨_, rfl⟩)
+
+theorem mem_fragmentsOf (rows : List Row) (f : Fragment) : f ∈ fragmentsOf rows ↔ Row.frag f ∈ rows := by
+  induction rows with
+  | nil => simp [fragmentsOf]
+  | cons r t ih =>
+    cases r with
+    | frag g => simp [fragmentsOf, ih]
+    | gap g => simp [fragmentsOf, ih]
+
+theorem reportOverlapsText_ok (asmName : Str) (pairs : List OvPair)
+    (h : ∀ p ∈ pairs, (p.f1.strand = 0 ∨ p.f1.strand = 1 ∨ p.f1.strand = -1) ∧
+                      (p.f2.strand = 0 ∨ p.f2.strand = 1 ∨ p.f2.strand = -1)) :
+    ∃ t, reportOverlapsText asmName pairs = .ok t := by
+  obtain ⟨ts, hts, _⟩ := C05.mapM_ok_of_forall overlapText (fun _ _ => True) pairs (by
+    intro p hp
+    obtain ⟨t1, h1⟩ := fragmentStr_ok p.f1 (h p hp).1
+    obtain ⟨t2, h2⟩ := fragmentStr_ok p.f2 (h p hp).2
+    refine ⟨_, ?_, trivial⟩
+    unfold overlapText
+    rw [h1, h2]; rfl)
+  refine ⟨_, ?_⟩
+  unfold reportOverlapsText
+  rw [hts]; rfl
 
 end AgpTpf.AsmFormat
